@@ -166,6 +166,19 @@ func encryptedAssertionXML(alg blockAlg, key []byte, pub *rsa.PublicKey, cipherV
 		`</saml:EncryptedAssertion>`
 }
 
+// encParts returns an EncryptedData element with an empty ds:KeyInfo and the matching EncryptedKey element.
+func encParts(alg blockAlg, key []byte, pub *rsa.PublicKey, cipherValue []byte, certB64 string) (edata, ekey string) {
+	wrapped, _ := rsa.EncryptOAEP(sha1.New(), rand.Reader, pub, key, nil)
+	ekey = `<xenc:EncryptedKey xmlns:xenc="http://www.w3.org/2001/04/xmlenc#" Id="_ek"><xenc:EncryptionMethod Algorithm="http://www.w3.org/2001/04/xmlenc#rsa-oaep-mgf1p">` +
+		`<ds:DigestMethod xmlns:ds="http://www.w3.org/2000/09/xmldsig#" Algorithm="http://www.w3.org/2000/09/xmldsig#sha1"/></xenc:EncryptionMethod>` +
+		`<ds:KeyInfo xmlns:ds="http://www.w3.org/2000/09/xmldsig#"><ds:X509Data><ds:X509Certificate>` + certB64 + `</ds:X509Certificate></ds:X509Data></ds:KeyInfo>` +
+		`<xenc:CipherData><xenc:CipherValue>` + base64.StdEncoding.EncodeToString(wrapped) + `</xenc:CipherValue></xenc:CipherData></xenc:EncryptedKey>`
+	edata = `<xenc:EncryptedData xmlns:xenc="http://www.w3.org/2001/04/xmlenc#" Type="http://www.w3.org/2001/04/xmlenc#Element">` +
+		`<xenc:EncryptionMethod Algorithm="` + alg.uri + `"/><ds:KeyInfo></ds:KeyInfo>` +
+		`<xenc:CipherData><xenc:CipherValue>` + base64.StdEncoding.EncodeToString(cipherValue) + `</xenc:CipherValue></xenc:CipherData></xenc:EncryptedData>`
+	return
+}
+
 func cbcEncrypt(alg blockAlg, key, plain []byte, r *mrand.Rand) []byte {
 	var blk cipher.Block
 	if alg.bs == 8 {
@@ -336,6 +349,53 @@ func c08SPSide(c *Ctx) {
 		r.Read(key)
 		ek, ed := f.parse(f.responseXML(encryptedAssertionXML(spAlgs[0], key, spPub, cbcEncrypt(spAlgs[0], key, []byte(ax), r), "", false)))
 		add("roundtrip-unsafe-plaintext", map[string]string{"variant": "control-untouched"}, map[string]any{"variant": "control"}, ek == "accepted", "encrypted="+ek, ed)
+	}
+
+	// (2c) the shape of the EncryptedAssertion element itself: exactly one EncryptedData child is
+	// required (findOneChild); a decoy next to the genuine ciphertext, a ciphertext one level deeper,
+	// or none at all must be refused whichever comes first
+	if ax, err := f.signedAssertion(nil, 1); err == nil {
+		alg := spAlgs[0]
+		mk := func(plain string) (edata, ekey string) {
+			key := make([]byte, alg.keySize)
+			r.Read(key)
+			return encParts(alg, key, spPub, cbcEncrypt(alg, key, []byte(plain), r), fix.CertB64("rsa_b"))
+		}
+		unsignedAx, _ := f.signedAssertion(func(a *saml.Assertion) { a.Subject.NameID.Value = "mallory" }, 0)
+		genuine, gkey := mk(ax)
+		decoy, dkey := mk(unsignedAx)
+		garbage, _ := mk("not xml at all")
+		wrap := func(kids ...string) string {
+			return `<saml:EncryptedAssertion xmlns:saml="urn:oasis:names:tc:SAML:2.0:assertion" xmlns:ds="http://www.w3.org/2000/09/xmldsig#" xmlns:xenc="http://www.w3.org/2001/04/xmlenc#">` +
+				strings.Join(kids, "") + `</saml:EncryptedAssertion>`
+		}
+		withKey := func(edata, ekey string) string { // EncryptedKey inside ds:KeyInfo of the EncryptedData
+			return strings.Replace(edata, "<ds:KeyInfo></ds:KeyInfo>", "<ds:KeyInfo>"+ekey+"</ds:KeyInfo>", 1)
+		}
+		g, d, gb := withKey(genuine, gkey), withKey(decoy, dkey), withKey(garbage, gkey)
+		shapes := []struct {
+			name, xml, want string
+		}{
+			{"control-one-encrypted-data", wrap(g), "accepted"},
+			{"control-sibling-key", wrap(genuine, gkey), "accepted"},
+			{"two-encrypted-data-genuine-first", wrap(g, d), "rejected"},
+			{"two-encrypted-data-decoy-first", wrap(d, g), "rejected"},
+			{"two-encrypted-data-garbage-first", wrap(gb, g), "rejected"},
+			{"two-encrypted-data-garbage-last", wrap(g, gb), "rejected"},
+			{"same-encrypted-data-twice", wrap(g, g), "rejected"},
+			{"three-encrypted-data", wrap(g, d, g), "rejected"},
+			{"no-encrypted-data", wrap(), "rejected"},
+			{"only-encrypted-key", wrap(gkey), "rejected"},
+			{"encrypted-data-one-level-deeper", wrap(`<xenc:Wrapper>` + g + `</xenc:Wrapper>`), "rejected"},
+			{"encrypted-data-in-other-namespace", wrap(strings.Replace(g, `xmlns:xenc="http://www.w3.org/2001/04/xmlenc#"`, `xmlns:xenc="urn:example:not-xmlenc"`, 1)), "rejected"},
+			{"two-sibling-keys-decoy-data", wrap(decoy, gkey, dkey), "rejected"},
+			{"two-encrypted-data-sibling-key", wrap(genuine, decoy, gkey), "rejected"},
+		}
+		for _, sh := range shapes {
+			kind, detail := f.parse(f.responseXML(sh.xml))
+			add("encrypted-assertion-shape", map[string]string{"shape": sh.name}, map[string]any{"shape": sh.name, "encrypted_assertion_xml": sh.xml},
+				kind == sh.want, kind, detail)
+		}
 	}
 
 	// (3) plaintexts that are not an assertion document
